@@ -96,6 +96,12 @@ CHECKS = {
             "(default, classic, custom) probe every live connection after every step and compare DEFAULT_CONFIG with a snapshot.",
             "reference policy written from the statement; both targets accepted where name and twin both qualify; bytes names may be refused or decoded",
             "E5", "DESIGN.md#c06"),
+    "C07": ("model_checking",
+            "explicit-state BFS over hostile message histories sent by a reference-codec raw peer (with refuse / ignore / adaptive strategies for nested conversations) to a real default-configuration Connection, with canary, policy, table-membership, pickle, import and state monitors after every message",
+            "Per reachable state the whole alphabet is applied: every handler x every id in the peer's pool (harvested, stale, never sent, lent on another connection, forged) x 25 sensitive names x labels 3/4, attribute names sent as forged references "
+            "answered adaptively, malformed requests, non-request kinds with arbitrary sequence numbers, 26 crafted exception payloads; histories to depth 3 (quick) / 4 (thorough), states de-duplicated by (ended, table by role, pool roles, proxy cache).",
+            "dedicated-handler special methods (__dir__, __hash__, __repr__, __str__, __call__, iteration, __instancecheck__) are not canaries; alphabet is a structured menu, not all frames",
+            "E3+E5", "DESIGN.md#c07"),
 }
 
 NOT_APPLICABLE = {}
